@@ -916,8 +916,8 @@ func runC17_12(c *core.Ctx) {
 // accessorTable: one-line accessors the properties quote; each hands back exactly the named path from its receiver.
 var accessorTable = []struct {
 	prop, id, rel, fn string
-	path             []string // field names, a trailing "()" marks a niladic method call
-	why              string
+	path              []string // field names, a trailing "()" marks a niladic method call
+	why               string
 }{
 	{"C02", "C02.17", "", "conn.OutboundBuffered", []string{"outboundBuffer", "Buffered()"}, "OutboundBuffered is the byte count of the outbound queue (accepted minus handed to the kernel)"},
 	{"C17", "C17.13", "", "conn.LocalAddr", []string{"localAddr"}, "LocalAddr reports the address stored at construction"},
